@@ -53,6 +53,7 @@ type Server struct {
 	OnAnswer func(tag string, granted bool)
 }
 
+//go:norace
 func (s *Server) fill() bool {
 	b := make([]byte, 8192)
 	n, err := s.End.Read(b)
@@ -63,6 +64,7 @@ func (s *Server) fill() bool {
 	return err == nil
 }
 
+//go:norace
 func (s *Server) readLine() (string, bool) {
 	for {
 		if i := strings.Index(string(s.buf), "\r\n"); i >= 0 {
@@ -76,6 +78,7 @@ func (s *Server) readLine() (string, bool) {
 	}
 }
 
+//go:norace
 func (s *Server) readN(n int) (string, bool) {
 	for len(s.buf) < n {
 		if !s.fill() {
@@ -87,6 +90,7 @@ func (s *Server) readN(n int) (string, bool) {
 	return p, true
 }
 
+//go:norace
 func literalHeader(line string) (n int, nonSync bool, ok bool) {
 	if !strings.HasSuffix(line, "}") {
 		return 0, false, false
@@ -107,6 +111,7 @@ func literalHeader(line string) (n int, nonSync bool, ok bool) {
 	return v, nonSync, true
 }
 
+//go:norace
 func (s *Server) send(b string) {
 	if b != "" {
 		s.End.Write([]byte(b))
@@ -114,6 +119,8 @@ func (s *Server) send(b string) {
 }
 
 // Run serves until the client goes away.
+//
+//go:norace
 func (s *Server) Run() {
 	s.send(s.Greeting)
 	for {
